@@ -129,6 +129,9 @@ def run(ctx: Ctx):
                f"visited_time' rebuilt from rec_current': {uses}; starts from zeros: {starts0}", construct=f"{st.fi.qualname}:visited_time")
         ctx.sample({"env": cname, "next_tour_bases": [vg.show(x, 2) for x in bs_]})
     surgery(ctx)
+    ruin_repair_visit_stamps(ctx)
+    sampler_over_all_moves(ctx)
+    neuopt_padding(ctx)
     # get_costs definition
     base = ctx.repo.get_class("rl4co/envs/common/base.py", "ImprovementEnvBase")
     fi = base.methods["get_costs"]
@@ -294,6 +297,154 @@ def ruin_repair_mask(ctx: Ctx):
            "positions are ordered by visited_time % n on both sides (the depot's stamp n wraps to 0)" if ok else
            f"the order test compares {[vg.show(c[0], 3)[:60] + ' ' + c[1] + ' ' + vg.show(c[2], 3)[:60] for c in cmps][:2]}: the depot (visit time n) is not wrapped to position 0",
            construct="PDPRuinRepairEnv.get_mask:visit-order-modulus")
+
+
+def _walk_stamps(fi):
+    """`for i in range(n): cur = tour[rows, pre]; stamp[rows, cur] = f(i); pre = cur` -> [(loop node, f as {power of i: coef}, start node)]"""
+    out = []
+    for lp in [n for n in ast.walk(fi.node) if isinstance(n, ast.For)]:
+        if not (isinstance(lp.target, ast.Name) and isinstance(lp.iter, ast.Call) and getattr(lp.iter.func, "id", "") == "range" and len(lp.iter.args) == 1):
+            continue
+        iv = lp.target.id
+        carried = None
+        for st in lp.body:
+            # pre = cur
+            if isinstance(st, ast.Assign) and isinstance(st.targets[0], ast.Name) and isinstance(st.value, ast.Name):
+                carried = (st.targets[0].id, st.value.id)
+        if carried is None:
+            continue
+        pre, cur = carried
+        steps = [st for st in lp.body if isinstance(st, ast.Assign) and isinstance(st.targets[0], ast.Name) and st.targets[0].id == cur and isinstance(st.value, ast.Subscript)
+                 and any(isinstance(x, ast.Name) and x.id == pre for x in ast.walk(st.value.slice))]
+        stamps = [st for st in lp.body if isinstance(st, ast.Assign) and isinstance(st.targets[0], ast.Subscript)
+                  and any(isinstance(x, ast.Name) and x.id == cur for x in ast.walk(st.targets[0].slice))]
+        if len(steps) != 1 or len(stamps) != 1:
+            continue
+        e = stamps[0].value
+
+        def lin(e):
+            if isinstance(e, ast.Constant) and isinstance(e.value, int) and not isinstance(e.value, bool):
+                return {0: e.value}
+            if isinstance(e, ast.Name) and e.id == iv:
+                return {1: 1}
+            if isinstance(e, ast.BinOp) and isinstance(e.op, (ast.Add, ast.Sub)):
+                l, r = lin(e.left), lin(e.right)
+                if l is None or r is None:
+                    return None
+                sg = 1 if isinstance(e.op, ast.Add) else -1
+                o = dict(l)
+                for k, v in r.items():
+                    o[k] = o.get(k, 0) + sg * v
+                return {k: v for k, v in o.items() if v}
+            return None
+        out.append((lp, lin(e), pre))
+    return out
+
+
+def ruin_repair_visit_stamps(ctx: Ctx):
+    """C09.i PDP ruin-and-repair: get_mask orders positions by `visited_time % n` with the depot first, so the state must stamp
+    the depot with a multiple of n.  The walk starts at the depot (`pre = 0`) and reaches it again in iteration n - 1: the stamp
+    of iteration i has to be i + 1, in `_reset` exactly as in `_step` -- with `i` the depot gets n - 1 and is ordered LAST, and
+    the first mask after reset offers `delivery right behind the depot`."""
+    cls = ctx.repo.get_class("rl4co/envs/routing/pdp/env.py", "PDPRuinRepairEnv")
+    for meth in ("_reset", "_step"):
+        fi = cls.methods.get(meth)
+        if fi is None:
+            raise AnalysisError(f"PDPRuinRepairEnv.{meth} not found")
+        ctx.fn(fi)
+        loops = _walk_stamps(fi)
+        if len(loops) != 1:
+            raise AnalysisError(f"PDPRuinRepairEnv.{meth}: expected one tour walk that stamps visit times, found {len(loops)}")
+        lp, f, pre = loops[0]
+        if f is None:
+            raise AnalysisError(f"PDPRuinRepairEnv.{meth}: visit stamp is not linear in the loop index")
+        # the walk starts at the depot: `pre` is initialised with zeros
+        init = None
+        for st in ast.walk(fi.node):
+            if isinstance(st, ast.Assign) and isinstance(st.targets[0], ast.Name) and st.targets[0].id == pre and st.lineno < lp.lineno:
+                init = st.value
+        from_depot = init is not None and any(isinstance(c, ast.Call) and ast.unparse(c.func) in ("torch.zeros", "torch.zeros_like") for c in ast.walk(init))
+        ok = f == {1: 1, 0: 1} and from_depot
+        shown = " + ".join((f"{v}*i" if k else str(v)) for k, v in sorted(f.items(), reverse=True)) or "0"
+        ctx.ob("C09.i", f"PDPRuinRepairEnv.{meth}:visit-stamp", ok, fi.loc,
+               f"walk from the depot: {from_depot}; stamp of iteration i = {shown}" + ("" if ok else " -- get_mask wraps the depot's stamp with % n, which needs the depot (reached in iteration n - 1) stamped n"),
+               construct=f"PDPRuinRepairEnv.{meth}:visit-stamp")
+
+
+def sampler_over_all_moves(ctx: Ctx):
+    """C09.j the env's own random-move sampler draws from softmax(masked logits).  Forbidden moves are filled with a large
+    finite negative number, which gives them probability zero only if the softmax ranges over ALL candidate moves of the
+    instance at once: normalising row by row first turns a fully forbidden row into a uniform one, and the flattened
+    distribution then offers forbidden moves."""
+    for path, cname in (("rl4co/envs/routing/pdp/env.py", "PDPRuinRepairEnv"),):
+        cls = ctx.repo.get_class(path, cname)
+        fi = cls.methods.get("_random_action")
+        if fi is None:
+            raise AnalysisError(f"{cname}._random_action not found")
+        ctx.fn(fi)
+        it = vg.Interp(ctx.repo, cls, inline_policy=lambda f, a: False)
+        fr = it.run_function(fi)
+        draws = [n for n in vg.walk(fr.ret) if (n.op == "meth" and n.args[1] == "multinomial") or nf._fn(n) == "torch.multinomial"] if isinstance(fr.ret, vg.S) else []
+        if len(draws) != 1:
+            raise AnalysisError(f"{cname}._random_action: expected one multinomial draw, found {len(draws)}")
+        dist = draws[0].args[0] if draws[0].op == "meth" else draws[0].args[1]
+        FLAT = {"view", "reshape", "flatten"}
+        # peel reshapes off the distribution: what is left must be the softmax, and ITS operand must be the flattened logits
+        d, reshaped_after = dist, False
+        while isinstance(d, vg.S) and d.op == "meth" and d.args[1] in FLAT:
+            d, reshaped_after = d.args[0], True
+        is_sm = isinstance(d, vg.S) and ((d.op == "meth" and d.args[1] == "softmax") or nf._fn(d) in ("torch.softmax", "F.softmax", "torch.nn.functional.softmax"))
+        if not is_sm:
+            raise AnalysisError(f"{cname}._random_action: the multinomial draw is not taken from a softmax")
+        operand = d.args[0] if d.op == "meth" else d.args[1]
+        flat_before = isinstance(operand, vg.S) and operand.op == "meth" and operand.args[1] in FLAT
+        filled = any(n.op == "store" for n in vg.walk(operand))
+        ok = flat_before and not reshaped_after and filled
+        ctx.ob("C09.j", f"{cname}._random_action:softmax-over-all-moves", ok, fi.loc,
+               f"softmax operand is the flattened masked logits: {flat_before}; distribution reshaped after normalising: {reshaped_after}; forbidden moves filled before: {filled}" +
+               ("" if ok else " -- a fully forbidden row becomes uniform and its moves are drawn"),
+               construct=f"{cname}._random_action:softmax-scope")
+
+
+def neuopt_padding(ctx: Ctx):
+    """C09.k NeuOpt builds a k-opt move node by node; once a row has closed its move (`stopped`), every further slot is padded
+    with the row's FIRST node (`where(stopped, record[:, :1], sampled)`), which TSPkoptEnv._local_operator reads as `no further
+    exchange`.  The record table must be written from the padded value, i.e. after the override -- written before it, the
+    closed rows keep arbitrary sampled nodes and the env cuts the tour at them (sub-tours for k_max >= 5)."""
+    cls = ctx.repo.get_class("rl4co/models/zoo/neuopt/policy.py", "NeuOptPolicy")
+    fi = cls.methods.get("forward")
+    if fi is None:
+        raise AnalysisError("NeuOptPolicy.forward not found")
+    ctx.fn(fi)
+    found = 0
+    for lp in [n for n in ast.walk(fi.node) if isinstance(n, ast.For)]:
+        iv = lp.target.id if isinstance(lp.target, ast.Name) else None
+        overrides = []
+        for idx, st in enumerate(lp.body):
+            for a in ast.walk(st):
+                if isinstance(a, ast.Assign) and isinstance(a.targets[0], ast.Name) and isinstance(a.value, ast.Call) and ast.unparse(a.value.func) == "torch.where" and len(a.value.args) == 3:
+                    v = a.targets[0].id
+                    c_, pad, keep = a.value.args
+                    if isinstance(keep, ast.Name) and keep.id == v and isinstance(pad, ast.Subscript) and isinstance(pad.value, ast.Name):
+                        overrides.append((idx, v, pad.value.id))
+        if len(overrides) != 1:
+            continue
+        oi, v, table = overrides[0]
+        stores = [idx for idx, st in enumerate(lp.body) if isinstance(st, ast.Assign) and isinstance(st.targets[0], ast.Subscript) and isinstance(st.targets[0].value, ast.Name)
+                  and st.targets[0].value.id == table and any(isinstance(x, ast.Name) and x.id == iv for x in ast.walk(st.targets[0].slice))
+                  and any(isinstance(x, ast.Name) and x.id == v for x in ast.walk(st.value))]
+        found += 1
+        ok = len(stores) == 1 and stores[0] > oi
+        # no other redefinition of the sampled value between the override and the store
+        if ok:
+            between = [st for st in lp.body[oi + 1:stores[0]] for a in ast.walk(st) if isinstance(a, ast.Assign) and any(isinstance(t, ast.Name) and t.id == v for t in a.targets)]
+            ok = not between
+        ctx.ob("C09.k", "NeuOptPolicy.forward:closed-rows-padded-with-first-node", ok, fi.loc,
+               f"`{table}[:, i]` is written from `{v}` after where(stopped, {table}[:, :1], {v}): {ok}" +
+               ("" if ok else " -- rows that already closed their move record arbitrary sampled nodes; TSPkoptEnv._local_operator takes them as further exchange points"),
+               construct="NeuOptPolicy.forward:record-after-padding")
+    if found != 1:
+        raise AnalysisError(f"NeuOptPolicy.forward: expected one decoding loop with a stopped-row override, found {found}")
 
 
 def run_thorough(ctx: Ctx):
